@@ -21,13 +21,13 @@ const (
 )
 
 type vfMachine struct {
-	k       int
-	cr3     uintptr
-	next    int // next frame to hand out
-	failAt  int
-	allocs  int
-	flushes [8]uintptr
-	nflush  int
+	k        int
+	cr3      uintptr
+	next     int // next frame to hand out
+	failAt   int
+	allocs   int
+	flushes  [8]uintptr
+	nflush   int
 	unmapped bool // the kernel touched an address the MMU cannot translate
 }
 
@@ -228,8 +228,8 @@ func Verif_C04_ops() {
 	zzverif.Assert(*(*uintptr)(unsafe.Pointer(vfPhysFrame.Address() + 511<<3)) == vfPhysFrame.Address()|uintptr(FlagPresent|FlagRW), "the recursive slot of the active root is intact")
 }
 
-
 // Operations on an address space that is not active leave the active one bit-for-bit as it was.
+//
 //verif:split 4
 func Verif_C04_inactive() {
 	m := vfBoot(zzverif.Param("frames", 8, 12))
